@@ -99,6 +99,82 @@ def write_replay(prop, case, res, minimised_from=None):
     return path
 
 
+def _fresh_replay(path):
+    """Replays a file in a fresh interpreter. Returns (same_class, digest)."""
+    import re
+    import subprocess
+    with open(path) as f:
+        rec = json.load(f)
+    env = dict(os.environ)
+    env['PYTHONHASHSEED'] = str(rec.get('pyhashseed') or '0')
+    try:
+        p = subprocess.run([common.PY, '-m', 'verifsim', 'replay', path], env=env,
+                           cwd=common.VERIF_DIR, stdout=subprocess.PIPE, stderr=subprocess.PIPE,
+                           timeout=600)
+    except subprocess.TimeoutExpired:
+        return False, None
+    out = p.stdout.decode(errors='replace')
+    m = re.search(r'REPLAY property=\S+ oracle=(\S+) class=(\S+) digest=(\S+) (\S+)', out)
+    if p.returncode != 1 or not m:
+        return False, None
+    return (m.group(1) == rec['oracle'] and m.group(2) == rec['class']), m.group(3)
+
+
+def confirm_replay(prop, path, fallback_case, history_cases, max_fresh=60):
+    """A violation must replay from its file in a fresh interpreter. A worker executes many
+    worlds in one process; when PyRTL carries state from one world into the next (module-level
+    caches, mutated default arguments, class attributes) the failing world alone does not
+    fail. The worlds this worker ran before are then part of the failing history: the shortest
+    suffix of them that reproduces the violation is found (fresh interpreter per attempt),
+    thinned out greedily, and stored in the replay file under 'preceding'.
+    history_cases(k) -> the last k cases this worker ran before the failing one."""
+    used = [0]
+
+    def attempt(rec):
+        used[0] += 1
+        with open(path, 'w') as f:
+            json.dump(rec, f, indent=1, sort_keys=True, default=str)
+        return _fresh_replay(path)
+
+    with open(path) as f:
+        rec0 = json.load(f)
+    ok, dg = attempt(rec0)
+    if ok:
+        rec0['digest'] = dg
+        rec0['fresh_interpreter'] = 'reproduced'
+        attempt(rec0)
+        return 'reproduced'
+    for case in ([rec0['case']] if fallback_case is None else [rec0['case'], fallback_case]):
+        k = 1
+        while used[0] < max_fresh:
+            prev = history_cases(k)
+            rec = dict(rec0, case=case, preceding=prev)
+            ok, dg = attempt(rec)
+            if ok:
+                # thin the history out: drop worlds that are not needed
+                j = 0
+                while j < len(prev) and used[0] < max_fresh:
+                    trial = prev[:j] + prev[j + 1:]
+                    ok2, dg2 = attempt(dict(rec, preceding=trial))
+                    if ok2:
+                        prev, dg = trial, dg2
+                    else:
+                        j += 1
+                rec = dict(rec, preceding=prev, digest=dg,
+                           fresh_interpreter='reproduced after %d preceding world(s) of the same '
+                                             'worker process' % len(prev))
+                attempt(rec)
+                return 'reproduced_with_history'
+            if len(prev) < k:
+                break           # that was the whole history
+            k *= 2
+    rec0['fresh_interpreter'] = ('NOT reproduced in a fresh interpreter, with or without the '
+                                 'worlds this worker ran before')
+    with open(path, 'w') as f:
+        json.dump(rec0, f, indent=1, sort_keys=True, default=str)
+    return 'not_reproduced'
+
+
 def minimise_case(prop, case, res, budget):
     target = res.violation.key()
 
@@ -179,6 +255,14 @@ def main(argv):
                 agg['known_hits'][kf['id']] = agg['known_hits'].get(kf['id'], 0) + 1
             else:
                 unknown_violations += 1
+                def history_cases(k, _i=i):
+                    idx = [j for j in range(start, _i, stride)][-k:]
+                    cs = []
+                    for j in idx:
+                        c = prop.gen_case(Streams(run_seed_of(verif_seed, j)), tier)
+                        c['run_seed'] = run_seed_of(verif_seed, j)
+                        cs.append(c)
+                    return cs
                 if unknown_violations == 1:
                     small, used = minimise_case(prop, case, res,
                                                 getattr(prop, 'MIN_BUDGET', 300))
@@ -187,8 +271,13 @@ def main(argv):
                         small, sres = case, res
                     path = write_replay(prop, small, sres,
                                         minimised_from={'run_seed': run_seed, 'tried': used})
+
                 else:
+                    small = case
                     path = write_replay(prop, case, res)
+                status = confirm_replay(prop, path, case if small is not case else None,
+                                        history_cases)
+                agg['probes']['replay_' + status] = agg['probes'].get('replay_' + status, 0) + 1
                 out.write(json.dumps({'t': 'violation', 'i': i, 'run_seed': run_seed,
                                       'oracle': v.oracle, 'class': v.cls, 'tags': v.tags,
                                       'detail': v.detail, 'replay': path}, default=str) + '\n')
